@@ -86,12 +86,13 @@ Proof. exact parse_render_select. Qed.
 Print Assumptions C03_parse_render_select_partial.
 
 (* every reference statement of Spec/RefStmt.v: [WITH [RECURSIVE] ctes] followed by a query expression (SELECTs combined
-   by UNION | EXCEPT | INTERSECT [ALL], left-nested), INSERT (column list, VALUES rows | query, RETURNING), UPDATE (SET,
+   by UNION | EXCEPT | INTERSECT [ALL], left-nested), INSERT (column list, VALUES rows | query, ON CONFLICT [(columns) | ON
+   CONSTRAINT name] DO NOTHING | DO UPDATE SET ... [WHERE ...], RETURNING), UPDATE (SET,
    WHERE, RETURNING) or DELETE (WHERE, RETURNING); CTEs with column lists, [NOT] MATERIALIZED and query bodies.  One
    equation: accepted, nothing beyond the statement consumed, the whole tree equal to the prescribed one (WITH on the
    left-most SELECT of a set operation, JOIN attached to the last FROM item, ...).
    Omitted (besides the SELECT clauses listed above): ORDER BY / LIMIT on operands of set operations (known finding
-   `setop-trailing-order-by`), CTE bodies other than queries, nested WITH, ON CONFLICT / ON DUPLICATE KEY, UPDATE ... FROM,
+   `setop-trailing-order-by`), CTE bodies other than queries, nested WITH, ON DUPLICATE KEY, UPDATE ... FROM,
    DELETE ... USING, MERGE, DDL, the MySQL dialect. *)
 Theorem C03_parse_render_stmt_partial :
   forall md sf fuel (sr : srho) s stop d,
